@@ -4,9 +4,12 @@
 (* call: operation, key, result or panic, the ring and the primary as the  *)
 (* public API shows them afterwards, one flag per key list handed out      *)
 (* earlier, and for rotation traces the outcome of a real encrypt/decrypt  *)
-(* exchange for every ordered pair of nodes).  State-logging: the ring the *)
-(* previous line recorded is the pre-state, the reference of KRRef is      *)
-(* stepped from it, and every C17 clause is evaluated on every line.       *)
+(* exchange for every ordered pair of nodes).  State-logging: every line   *)
+(* carries the ring the call started from (the previous reading of the     *)
+(* real ring), the reference of KRRef is stepped from it, and every C17    *)
+(* clause is evaluated on every line.  (Lines whose whole call history     *)
+(* already produced the identical line may be absent: a case need not      *)
+(* start at its first call.)                                               *)
 (*   VERDICT  the recorded behaviour contradicts the property text         *)
 (*   DRIFT    it differs from the reference in something the property does *)
 (*            not ask for (order of the non-primary keys, a NewKeyring     *)
@@ -20,7 +23,7 @@ TraceFile == IOEnv.VERIF_TRACE
 Trace == ndJsonDeserialize(TraceFile)
 
 VARIABLES l,      \* next line
-          rr,     \* node -> ring recorded by that node's latest line (sequence of keys)
+          rr,     \* node -> ring recorded by that node's latest line (used for rotation lines)
           gcase,  \* case of the previous line
           bad     \* a verdict was given in this case
 tkvars == <<l, rr, gcase, bad>>
@@ -68,11 +71,8 @@ TStep ==
         ELSE IF e.pan
         THEN /\ Report("VERDICT", "C17_NoPanic", e, FALSE)
              /\ bad' = TRUE /\ rr' = R /\ gcase' = e.case
-        ELSE IF e.op # "N" /\ e.node \notin DOMAIN R
-        THEN /\ Report("DRIFT", "call-without-ring", e, FALSE)
-             /\ bad' = TRUE /\ rr' = R /\ gcase' = e.case
         ELSE LET k    == Key(e.key, e.klen)
-                 cur  == IF e.op = "N" THEN <<>> ELSE R[e.node]
+                 cur  == IF e.op = "N" THEN <<>> ELSE Rec(e.pre, e.plens)
                  post == Rec(e.ring, e.lens)
                  ref  == IF e.op = "N" THEN NewRef(Rec(e.nkeys, e.nlens), k) ELSE ApplyRef(e.op, cur, k)
                  R1   == (e.node :> post) @@ R
